@@ -242,7 +242,7 @@ class C11(Prop):
         "cg_statistics_are_of_the_proved_run", "cg_terminates_within_max_iterations", "cg_descends_unless_brent_loses_the_bracket_point",
         "weibull_objective_is_neg_loglik", "weibull_loglik_derivatives", "weibull_fit_optimality_certificate", "weibull_stationary_is_global_maximiser_partial",
         "weibull_sxp_fit_parameters_positive", "gamma_rate_is_maximiser", "truncated_gumbel_gradient_is_derivative", "exp_binned_fit_is_maximiser", "exp_binned_loglik_closed_form",
-        "set_expect_fills_all_bins", "expected_tail_emin_in_range", "goodness_never_faults", "goodness_accounts_for_its_counts",
+        "set_expect_fills_all_bins", "expected_tail_emin_in_range", "expected_counts_account_for_the_mass", "goodness_never_faults", "goodness_accounts_for_its_counts", "goodness_range_is_the_raw_data_above_its_threshold",
         "plot_accounts_for_data", "plot_survival_accounts_for_data", "plot_qq_in_bounds", "declare_rounding_keeps_the_data")]
     claimed = True
     technique = ("Lean 4 proof over an executable line-by-line model (numeric class: Float for the bit-exact differential run, Q/R for the theorems) "
